@@ -73,12 +73,15 @@ def execute(case):
                                 async with Context() as inner:
                                     rec["inner"] = idof(inner.parent)
                                 rec["restored"] = current_context() is before
+                                rec["given1"] = idof(Context(current_context()).parent)
 
                             async def start(self):
                                 rec["start"] = idof(Context().parent)
+                                g = idof(Context(current_context()).parent)
+                                rec["given"] = g if g == rec.get("given1") else -4
                         try:
                             await start_component(Probe, timeout=None)
-                            log(ev="comp", t=t, prep=rec.get("prep", -2), start=rec.get("start", -2), inner=rec.get("inner", -2), restored=bool(rec.get("restored")))
+                            log(ev="comp", t=t, prep=rec.get("prep", -2), start=rec.get("start", -2), inner=rec.get("inner", -2), given=rec.get("given", -2), restored=bool(rec.get("restored")))
                         except Exception as e:  # noqa: BLE001
                             log(ev="unexpected", what="start_component:" + type(e).__name__)
 
